@@ -1103,8 +1103,14 @@ impl CompilerContext<'_> {
     }
 
     fn all_signatures(&self) -> impl Iterator<Item=&'_ Signature> {
-        let ins_sigs = self.defs.instrs.values().map(|data| &data.sig);
-        let non_ins_sigs = self.defs.funcs.values().filter_map(|func| func.sig.as_ref());
+        // (the maps are hash maps; sort so that diagnostics come out in the same order on every run)
+        let mut instrs = self.defs.instrs.iter().collect::<Vec<_>>();
+        instrs.sort_by_key(|&(&(language, opcode), _)| (language as u8, opcode));
+        let mut funcs = self.defs.funcs.iter().collect::<Vec<_>>();
+        funcs.sort_by_key(|&(&def_id, _)| def_id);
+
+        let ins_sigs = instrs.into_iter().map(|(_, data)| &data.sig);
+        let non_ins_sigs = funcs.into_iter().filter_map(|(_, func)| func.sig.as_ref());
         ins_sigs.chain(non_ins_sigs)
     }
 
@@ -1166,7 +1172,8 @@ impl Defs {
 
         self.enums.keys()
             .map(|candidate| (candidate, strsim::osa_distance(input.as_str(), candidate.as_str())))
-            .min_by_key(|&(_, distance)| distance)
+            // (break ties by name; the map is a hash map and the suggestion must not depend on its order)
+            .min_by(|a, b| a.1.cmp(&b.1).then_with(|| a.0.as_str().cmp(b.0.as_str())))
             .filter(|&(_, distance)| distance <= max_distance)
             .map(|(candidate, _)| candidate.clone())
     }
